@@ -73,8 +73,9 @@ class BaseWindow(ContextManager):
         traceback: Optional[TracebackType] = None,
     ) -> None:
         logger.debug("running BaseWindow.__exit__")
-        if self.hide_cursor:
-            self.write(self.t.normal_cursor)
+        # even with hide_cursor off a render hides the cursor while it draws,
+        # and an exception can leave the context in the middle of a render
+        self.write(self.t.normal_cursor)
 
     def on_terminal_size_change(self, height: int, width: int) -> None:
         # Changing the terminal size breaks the cache, because it
